@@ -305,6 +305,49 @@ def _attrs_used(stmts, var):
     return out
 
 
+def fallback_scan(ctx, R, rid):
+    """the linear lookup used when no fast lookup is registered: one scan per (parent kind, child kind),
+    never stopping early, comparing value with child[key]"""
+    P = ctx.P
+    cells = 0
+    # global_service.lookup fallback
+    gs = P.func(GS, "lookup")
+    want = {("Netlist", "Library", "libraries"), ("Library", "Definition", "definitions"), ("Definition", "Port", "ports"),
+            ("Definition", "Cable", "cables"), ("Definition", "Instance", "children")}
+    got = set()
+    for n in walk_local(gs.node):
+        if isinstance(n, ast.If) and isinstance(n.test, ast.Call) and norm(n.test.func) == "isinstance" and norm(n.test.args[0]) == "parent":
+            pc = norm(n.test.args[1]).split(".")[-1]
+            for m in [x for st in n.body for x in ast.walk(st)]:
+                if isinstance(m, ast.If) and isinstance(m.test, ast.Compare) and norm(m.test.left) == "element_type" and isinstance(m.test.ops[0], (ast.Is, ast.Eq)):
+                    et = norm(m.test.comparators[0]).split(".")[-1]
+                    for lp in [x for st in m.body for x in ast.walk(st)]:
+                        if isinstance(lp, ast.For) and isinstance(lp.iter, ast.Attribute) and norm(lp.iter.value) == "parent":
+                            got.add((pc, et, lp.iter.attr))
+                            v = norm(lp.target)
+                            for x in ast.walk(lp):
+                                if isinstance(x, ast.Break):
+                                    R.bad(rid, "%s|%s break" % (gs.key, lp.iter.attr), gs.loc(x),
+                                          "the fallback scan over parent.%s stops at a `break`: a match after that child is never found, so results depend on whether the fast lookup is registered" % lp.iter.attr)
+                                if isinstance(x, ast.Return) and (x.value is None or norm(x.value) != v):
+                                    R.bad(rid, "%s|%s early return" % (gs.key, lp.iter.attr), gs.loc(x),
+                                          "the fallback scan over parent.%s returns `%s` from inside the loop instead of the matching child" % (lp.iter.attr, norm(x.value)))
+                                if isinstance(x, ast.Compare) and len(x.ops) == 1 and isinstance(x.ops[0], ast.Eq) and "value" in (norm(x.left), norm(x.comparators[0])):
+                                    other = norm(x.comparators[0]) if norm(x.left) == "value" else norm(x.left)
+                                    if other != "%s[key]" % v:
+                                        R.bad(rid, "%s|%s compare" % (gs.key, lp.iter.attr), gs.loc(x), "the fallback scan compares value with `%s`, not with %s[key]" % (other, v))
+    for t in sorted(want):
+        cells += 1
+        if t in got:
+            R.ok(rid, "global_service.lookup: %s/%s via %s" % t, gs.loc())
+        else:
+            R.bad(rid, "%s|%s.%s" % (gs.key, t[0], t[2]), gs.loc(),
+                  "the fallback lookup has no scan of %s.%s for element type %s: without the fast lookup such children are never found by exact name" % (t[0], t[2], t[1]))
+    for t in sorted(got - want):
+        R.bad(rid, "%s|wrong %s.%s" % (gs.key, t[0], t[2]), gs.loc(), "the fallback lookup scans %s.%s for element type %s" % (t[0], t[2], t[1]))
+    return cells
+
+
 def _n7(ctx, R):
     R.rule("N7", "schema coverage: every traversal of the containment schema covers all five relations with the right "
                  "(parent class, attribute, child class) triple; the fallback scan never stops early")
@@ -358,41 +401,7 @@ def _n7(ctx, R):
         else:
             R.bad("N7", "%s|%s.%s" % (gp.key, child, attr), gp.loc(),
                   "get_parent does not map %s to its %s: renames of such elements are not checked against their siblings" % (child, attr))
-    # global_service.lookup fallback
-    gs = P.func(GS, "lookup")
-    want = {("Netlist", "Library", "libraries"), ("Library", "Definition", "definitions"), ("Definition", "Port", "ports"),
-            ("Definition", "Cable", "cables"), ("Definition", "Instance", "children")}
-    got = set()
-    for n in walk_local(gs.node):
-        if isinstance(n, ast.If) and isinstance(n.test, ast.Call) and norm(n.test.func) == "isinstance" and norm(n.test.args[0]) == "parent":
-            pc = norm(n.test.args[1]).split(".")[-1]
-            for m in [x for st in n.body for x in ast.walk(st)]:
-                if isinstance(m, ast.If) and isinstance(m.test, ast.Compare) and norm(m.test.left) == "element_type" and isinstance(m.test.ops[0], (ast.Is, ast.Eq)):
-                    et = norm(m.test.comparators[0]).split(".")[-1]
-                    for lp in [x for st in m.body for x in ast.walk(st)]:
-                        if isinstance(lp, ast.For) and isinstance(lp.iter, ast.Attribute) and norm(lp.iter.value) == "parent":
-                            got.add((pc, et, lp.iter.attr))
-                            v = norm(lp.target)
-                            for x in ast.walk(lp):
-                                if isinstance(x, ast.Break):
-                                    R.bad("N7", "%s|%s break" % (gs.key, lp.iter.attr), gs.loc(x),
-                                          "the fallback scan over parent.%s stops at a `break`: a match after that child is never found, so results depend on whether the fast lookup is registered" % lp.iter.attr)
-                                if isinstance(x, ast.Return) and (x.value is None or norm(x.value) != v):
-                                    R.bad("N7", "%s|%s early return" % (gs.key, lp.iter.attr), gs.loc(x),
-                                          "the fallback scan over parent.%s returns `%s` from inside the loop instead of the matching child" % (lp.iter.attr, norm(x.value)))
-                                if isinstance(x, ast.Compare) and len(x.ops) == 1 and isinstance(x.ops[0], ast.Eq) and "value" in (norm(x.left), norm(x.comparators[0])):
-                                    other = norm(x.comparators[0]) if norm(x.left) == "value" else norm(x.left)
-                                    if other != "%s[key]" % v:
-                                        R.bad("N7", "%s|%s compare" % (gs.key, lp.iter.attr), gs.loc(x), "the fallback scan compares value with `%s`, not with %s[key]" % (other, v))
-    for t in sorted(want):
-        cells += 1
-        if t in got:
-            R.ok("N7", "global_service.lookup: %s/%s via %s" % t, gs.loc())
-        else:
-            R.bad("N7", "%s|%s.%s" % (gs.key, t[0], t[2]), gs.loc(),
-                  "the fallback lookup has no scan of %s.%s for element type %s: without the fast lookup such children are never found by exact name" % (t[0], t[2], t[1]))
-    for t in sorted(got - want):
-        R.bad("N7", "%s|wrong %s.%s" % (gs.key, t[0], t[2]), gs.loc(), "the fallback lookup scans %s.%s for element type %s" % (t[0], t[2], t[1]))
+    cells += fallback_scan(ctx, R, "N7")
     R.count("schema cells (N7)", cells)
     R.floor("schema cells (N7)", 35)
     # N7b: named children attached without telling the index
